@@ -29,6 +29,7 @@ Stateless(e) ==
     [] e.op = "msm"  -> JudgeMsm(e)
     [] e.op = "msml" -> JudgeMsml(e)
     [] e.op = "decode" -> JudgeDecode(e)
+    [] e.op = "pipe" -> JudgePipe(e)
     [] e.op = "encode" -> JudgeEncode(e)
     [] e.op = "insub" -> JudgeInsub(e)
     [] e.op \in {"xmd", "xof"} -> JudgeExpand(e)
